@@ -20,7 +20,7 @@ structure St where
 def step (σ : St) (op obs : List String) : St × List Msg :=
   match op with
   | o :: _i :: rest =>
-    match stepCommon σ.cfg σ.inst (o :: rest) obs with
+    match stepSil σ.cfg σ.inst (o :: rest) obs with
     | some (x, msgs) => ({ σ with inst := x }, msgs)
     | none => (σ, [.diff "parse" "?" (" ".intercalate op)])
   | _ => (σ, [.diff "parse" "?" (" ".intercalate op)])
